@@ -13,6 +13,31 @@ CHECKS = [
   "design_ref": "DESIGN.md §5 C19",
   "note": _TB + "binary_search modelled by its documented contract on strictly increasing slices.",
   "technique": "Coq proof (mirror model = declarative spec, induction over character lists) + differential correspondence with extracted model"},
+ {"id": "C01",
+  "text": "Coq theorems for ANY grammar/automaton dump that passes the boolean validators and for ALL token sequences: an accepted input "
+          "yields a valid derivation of exactly that input from the start rule (lr_sound), the parser's panic sites are unreachable "
+          "(lr_never_panics), every sentence is accepted with its tree (lr_complete) and no non-sentence is (lr_rejects_nonsentences). "
+          "Per generated grammar the implementation's own item sets, edges and table cells are validated, and the interpreter model is "
+          "run against Parser::lr on the same tables. 'All grammars' for table construction is by sampling + per-grammar certificate, "
+          "not a proof of Pager's algorithm.",
+  "design_ref": "DESIGN.md §5 C01, §5A",
+  "note": _TB + "validators' inputs are dumps taken through public accessors; Earley/tree-validity oracles (Python) only search for failing inputs.",
+  "technique": "Coq proof of a verified validator (LR soundness/completeness from per-grammar certificate) + interpreter/implementation differential"},
+ {"id": "C02",
+  "text": "Coq theorem validated_automata_agree: two validated automata of a productive grammar give the same tree or first-error position "
+          "on ALL inputs. Per generated reduced grammar the canonical LR(1) automaton (extracted, validated per grammar) certifies LR(1)-ness; "
+          "the implementation must then report no conflict, have no more states, pass the validators and agree on all generated inputs. "
+          "The universal claim over grammars (Pager's theorem) is decided per generated grammar only: partial.",
+  "design_ref": "DESIGN.md §5 C02",
+  "note": _TB + "canon_lr1 is unverified but its output is validated per grammar by the proved validators.",
+  "technique": "Coq proof (agreement of validated automata) + validated canonical LR(1) reference differential"},
+ {"id": "C04",
+  "text": "Coq theorems for any validated dump of a productive grammar and ALL inputs: a Reject at lexeme k implies the first k lexemes are "
+          "a prefix of a sentence (shifted_prefix_viable) and the first k+1 are not (first_error_not_viable). Tie as C01, plus error "
+          "count, absent value and first error under CPCT+ against an Earley viable-prefix oracle on every generated input.",
+  "design_ref": "DESIGN.md §5 C04, §5A",
+  "note": _TB + "Earley oracle (Python) used for the failing-input search and the with-recovery clause.",
+  "technique": "Coq proof of a verified validator (viable-prefix property) + interpreter/implementation differential"},
 ]
 
 _PENDING = "check not built yet in this round (work in progress; see DESIGN.md §10 build order)"
